@@ -14,8 +14,7 @@ RULE = ("files written (compressed or not) from maps of every degradable kind (f
 ASSUMPTIONS = ["as C07 (exact rationals; tolerance 2^-20 for mean / wmean / std)",
                "known finding F36 applies to 'and' (only all-or-nothing groups are generated for it)",
                "known finding F47: a float32 map with a float64 weight file gives float32 on read but float64 in "
-               "memory; that dtype combination is not generated",
-               "known finding F43: no unsigned record fields"]
+               "memory; that dtype combination is not generated",]
 
 
 def histories(rng, tier):
@@ -23,7 +22,7 @@ def histories(rng, tier):
     out = []
     for _ in range(n):
         kind = rng.choice(['flt', 'flt', 'int', 'int', 'rec', 'wide'])
-        c = gen.rand_cfg(rng, kinds=[kind], max_npix=768, name='m', min_delta=1, rec_unsigned=False)
+        c = gen.rand_cfg(rng, kinds=[kind], max_npix=768, name='m', min_delta=1)
         c.covpix = []
         ordout = rng.randint(c.covord, c.spord - 1)
         if c.kind == 'wide':
